@@ -298,8 +298,9 @@ def random_value(kind, rng, depth=0):
     return None
 
 
-def fuzz_contract(qual, seed=0, n=300, registry=None):
-    """random small inputs satisfying the precondition; returns the first input on which the real function violates its contract"""
+def fuzz_contract(qual, seed=0, n=300, registry=None, want_labels=None):
+    """random small inputs satisfying the precondition; returns the first input on which the real function violates its contract (when
+    `want_labels` is given: preferably one that falsifies a postcondition with one of these labels; the first failing input otherwise)"""
     import random
     from . import pools
     registry = registry or contract.Registry()
@@ -308,6 +309,7 @@ def fuzz_contract(qual, seed=0, n=300, registry=None):
         return None, 0
     rng = random.Random('%s-%d' % (qual, seed))
     tried = 0
+    first_hit = None
     gens = list(pools.function_inputs(c.target, seed)) or None
     if gens is None and any(isinstance(k, kinds.KObj) for k in c.param_kinds.values()):
         return None, 0
@@ -338,8 +340,13 @@ def fuzz_contract(qual, seed=0, n=300, registry=None):
         if r.get('pre_ok'):
             tried += 1
             if r['confirmed']:
-                return dict(inputs=inp, native=r), tried
-    return None, tried
+                if not want_labels:
+                    return dict(inputs=inp, native=r), tried
+                bad = [f_[5:-9] for f_ in r['failed'] if f_.startswith('post:') and f_.endswith(' is false')]
+                if any(b_ == w_ or b_.startswith(w_ + '.') or w_.startswith(b_ + '.') for b_ in bad for w_ in want_labels):
+                    return dict(inputs=inp, native=r), tried
+                first_hit = first_hit or dict(inputs=inp, native=r)
+    return first_hit, tried
 
 
 def fresh_outcome(qual, inp):
